@@ -1,7 +1,48 @@
+import LoraVerif.Gen.Modulation
+import LoraVerif.Spec.Airtime
+import LoraVerif.Spec.SemtechArith
+import LoraVerif.Model.PhyArith
 import Driver.Util
-/-! Suite C15: line-protocol handlers (stub — replaced when the property's model is built). -/
+/-! Suite C15: LDRO decision of the airtime calculator and of every radio driver, and the bit the
+driver programs.  `<model>|<spec>`: model = generated `BaseBandModulationParams::new` resp.
+`Model.PhyArith.createModParams` + `ldroByte` decoded with the datasheet position of the flag;
+spec = the symbol-time rule `Spec.Airtime.ldro` for pairs the chip supports, `ERR` otherwise. -/
+open Gen.Modulation
+open Spec.Semtech (Chip)
 namespace Driver.C15
 
-def handle (_ws : List String) : String := "bad-op"
+def sfOf? (n : Int) : Option SpreadingFactor := SpreadingFactor.all.find? (fun s => s.factor == n)
+def bwOf? (n : Int) : Option Bandwidth := Bandwidth.all.find? (fun b => b.hz == n)
+def crOf? (n : Int) : Option CodingRate := CodingRate.all.find? (fun c => c.denom == n)
+def chipOf? (s : String) : Option Chip := Chip.all.find? (fun c => c.name == s)
+
+def b01 (b : Bool) : String := if b then "1" else "0"
+
+def handle (ws : List String) : String :=
+  match ws with
+  | ["mod", sf, bw] =>
+    match parseInt? sf >>= sfOf?, parseInt? bw >>= bwOf? with
+    | some sf, some bw =>
+      let m := match BaseBandModulationParams.new sf bw ._4_5 with
+        | some p => b01 p.ldro
+        | none => "PANIC"
+      s!"{m}|{b01 (Spec.Airtime.ldro sf.factor bw.hz)}"
+    | _, _ => "bad-op"
+  | ["ldro", chip, sf, bw, cr, rf, prior] =>
+    match chipOf? chip, parseInt? sf >>= sfOf?, parseInt? bw >>= bwOf?, parseInt? cr >>= crOf?, parseInt? rf, parseInt? prior with
+    | some c, some sf, some bw, some cr, some rf, some prior =>
+      let m := match Model.PhyArith.createModParams c sf bw cr rf with
+        | .ok f =>
+          let byte := Model.PhyArith.ldroByte c f.toNat prior.toNat (Model.PhyArith.sx1272BwCode bw) (Model.PhyArith.crCode cr)
+          s!"{f},{Spec.Semtech.ldroBit c byte}"
+        | .err => "ERR"
+        | .panic => "PANIC"
+      let s := if Spec.Semtech.supports c sf.factor bw.hz rf then
+          let x := b01 (Spec.Semtech.ldro sf.factor bw.hz)
+          s!"{x},{x}"
+        else "ERR"
+      s!"{m}|{s}"
+    | _, _, _, _, _, _ => "bad-op"
+  | _ => "bad-op"
 
 end Driver.C15
